@@ -18,6 +18,7 @@ EXPLANATION = [
     'C09.waiters: every bare await on a future/event in l2cap.py is wrapped in a '
     'cancel-on-disconnection helper or settled by every teardown method of its '
     'owner on all paths.',
+    'C09.close-releases: every path on which an LE credit-based channel becomes DISCONNECTED releases drain() and disconnect() waiters.',
     'C09.cid-alloc: the CID allocator scans the table the channel is then '
     'inserted into; dynamic CID / PSM ranges equal the specification\'s.',
     'C09.state-table: every transition to CLOSED/DISCONNECTED is paired with '
@@ -189,15 +190,33 @@ def symmetric(ctx):
         return
     hparam = od.args.args[1].arg
     per_conn = per_connection_tables(p)
+
+    class Clean(paths.Domain):
+        """value = set of per-connection tables cleaned so far (path-sensitive)."""
+
+        def event(self, node, v):
+            if isinstance(node, ast.Call) and isinstance(node.func, ast.Attribute) and node.func.attr == 'pop' and node.args and dotted(node.args[0]) == hparam:
+                d = dotted(node.func.value) or ''
+                if d.startswith('self.'):
+                    return (v | {d[5:]},)
+            if isinstance(node, ast.Delete):
+                for t in node.targets:
+                    if isinstance(t, ast.Subscript) and (dotted(t.value) or '').startswith('self.') and dotted(t.slice) == hparam:
+                        return (v | {dotted(t.value)[5:]},)
+            if isinstance(node, ast.For):
+                # `for k in [k for k in self.T if k[0] == handle]: del self.T[k]` cleans T whatever the number of matches
+                for a in per_conn:
+                    if f'self.{a}' in text(node.iter) and hparam in text(node.iter) and any(
+                        isinstance(x, ast.Delete) and any(isinstance(t, ast.Subscript) and dotted(t.value) == f'self.{a}' for t in x.targets) for x in ast.walk(node)
+                    ):
+                        return (v | {a},)
+            return (v,)
+
+    res = paths.run(od, Clean(), frozenset())
     for attr, how in sorted(per_conn.items()):
-        cleaned = False
-        for n in ast.walk(od):
-            if isinstance(n, ast.Call) and dotted(n.func) == f'self.{attr}.pop' and n.args and dotted(n.args[0]) == hparam:
-                cleaned = True
-            if isinstance(n, ast.Delete) and any(isinstance(t, ast.Subscript) and dotted(t.value) == f'self.{attr}' for t in n.targets):
-                cleaned = True
-        R.check(cleaned, rule, f'{CM}.on_disconnection | {attr}', f'per-connection table ({how}) is dropped on disconnection',
-                f'per-connection table `{attr}` ({how}) is not cleaned when the link disconnects', p.loc(od))
+        bad = [f'{k} via {" ".join(w)}' for k, st in res.items() if not k.startswith('raise') for v, w in st.items() if attr not in v]
+        R.check(not bad, rule, f'{CM}.on_disconnection | {attr}', f'per-connection table ({how}) is dropped on every path of on_disconnection',
+                f'per-connection table `{attr}` ({how}) is not cleaned on some path when the link disconnects (stale entries survive into the next connection that reuses the handle)', p.loc(od), bad)
     # channels of the connection are aborted
     for t in TABLES:
         ok = False
@@ -496,6 +515,79 @@ def cid_alloc(ctx):
 
 
 # ---------------------------------------------------------------------------
+def close_releases(ctx):
+    """Whenever an LE credit-based channel reaches DISCONNECTED from a state in
+    which output may be queued, the drained event is set and a pending
+    disconnect() is settled, on every path that performs the transition."""
+    R, p = ctx.r, ctx.p
+    rule = 'C09.close-releases'
+    ci = p.cls(LE)
+    if ci is None:
+        R.bad(rule, LE, f'anchor missing: {LE}')
+        return
+    # helpers that set the drained event on every path
+    always_sets = set()
+    for name, m in ci.methods.items():
+        class S(paths.Domain):
+            def event(self, node, v):
+                if isinstance(node, ast.Call) and dotted(node.func) == 'self.drained.set':
+                    return (1,)
+                return (v,)
+        res = paths.run(m, S(), 0)
+        ex = paths.normal_exits(res)
+        if ex and all(v == 1 for v in ex):
+            always_sets.add(name)
+    from collections import namedtuple
+    V = namedtuple('V', 'closed drained disc from_disconnecting')
+
+    class D(paths.Domain):
+        def __init__(self, waiter_present):
+            self.waiter_present = waiter_present
+
+        def event(self, node, v):
+            if isinstance(node, ast.Call):
+                d = dotted(node.func) or ''
+                if d == 'self._change_state' and node.args and text(node.args[0]).endswith('State.DISCONNECTED'):
+                    return (v._replace(closed=1),)
+                if d == 'self.drained.set' or (d.startswith('self.') and d[5:] in always_sets):
+                    return (v._replace(drained=1),)
+                if d in ('self.disconnection_result.set_result', 'self.disconnection_result.set_exception', 'self.disconnection_result.cancel'):
+                    return (v._replace(disc=1),)
+            return (v,)
+
+        def assume(self, atom, truth, v):
+            t = norm(atom)
+            if self.waiter_present:
+                if t in ('self.disconnection_result is not None', 'self.disconnection_result'):
+                    return (v,) if truth else ()   # a disconnect() caller is waiting
+                if t == 'self.disconnection_result is None':
+                    return () if truth else (v,)
+            if t == 'self.state != self.State.DISCONNECTING' and not truth:
+                return (v._replace(from_disconnecting=1),)   # disconnect() already flushed the output
+            return (v,)
+
+    n = 0
+    for name, m in sorted(ci.methods.items()):
+        if not any(isinstance(c, ast.Call) and dotted(c.func) == 'self._change_state' and c.args and text(c.args[0]).endswith('State.DISCONNECTED') for c in ast.walk(m)):
+            continue
+        n += 1
+        bad = []
+        # (a) with a disconnect() caller waiting: it is settled; (b) with or without: drain() is released
+        for waiter in (True, False):
+            res = paths.run(m, D(waiter), V(0, 0, 0, 0))
+            for k, st in res.items():
+                if k.startswith('raise'):
+                    continue
+                for v, w in st.items():
+                    if waiter and v.closed and not v.disc:
+                        bad.append(f'a pending disconnect() is not settled ({k} via {" ".join(w)})')
+                    if not waiter and v.closed and not v.drained and not v.from_disconnecting:
+                        bad.append(f'drain() waiters are not released ({k} via {" ".join(w)})')
+        R.check(not bad, rule, f'{LE}.{name} | close releases waiters', 'every path that closes the channel sets `drained` (unless coming from DISCONNECTING, where disconnect() flushed) and settles disconnection_result',
+                'a path closes the channel but leaves a waiter hanging: ' + '; '.join(bad), p.loc(m))
+    R.floor(rule, 3, 'closing methods')
+
+
 def state_table(ctx):
     R, p = ctx.r, ctx.p
     rule = 'C09.state-table'
@@ -539,6 +631,7 @@ RULES = [
     ('C09.symmetric', symmetric),
     ('C09.keying', keying),
     ('C09.waiters', l2cap_waiters),
+    ('C09.close-releases', close_releases),
     ('C09.cid-alloc', cid_alloc),
     ('C09.state-table', state_table),
 ]
